@@ -1453,6 +1453,65 @@ func (e *absEnv) stdCall(fr *absFrame, name string, args []aval, depth int) (ava
 			nv := e.binop(token.ADD, e.load(p.obj, p.path), args[1])
 			e.store(p.obj, p.path, nv)
 			return nv, true
+		case strings.HasPrefix(op, "Swap"):
+			old := e.load(p.obj, p.path)
+			e.store(p.obj, p.path, args[1])
+			return old, true
+		case strings.HasPrefix(op, "CompareAndSwap") && len(args) == 3:
+			// single-threaded evaluation: the exchange happens exactly when the value is the expected one
+			eq, ok := e.binop(token.EQL, e.load(p.obj, p.path), args[1]).(abool)
+			if !ok {
+				return nil, false
+			}
+			if eq {
+				e.store(p.obj, p.path, args[2])
+			}
+			return eq, true
+		}
+	}
+	// the typed atomics (atomic.Int64 and friends): the value lives in the receiver's field v
+	if strings.HasPrefix(base, "(*sync/atomic.") {
+		p, ok := args[0].(aptr)
+		if !ok {
+			return nil, false
+		}
+		slot := joinPath(p.path, "v")
+		op := base[strings.LastIndex(base, ".")+1:]
+		cur := func() aval {
+			if v, have := p.obj.f[slot]; have {
+				return v
+			}
+			if strings.Contains(base, "atomic.Bool") {
+				return abool(false)
+			}
+			if strings.Contains(base, "atomic.Value") || strings.Contains(base, "atomic.Pointer") {
+				return anil{}
+			}
+			return aint(0)
+		}
+		switch op {
+		case "Load":
+			return cur(), true
+		case "Store":
+			p.obj.f[slot] = args[1]
+			return atuple{}, true
+		case "Add":
+			nv := e.binop(token.ADD, cur(), args[1])
+			p.obj.f[slot] = nv
+			return nv, true
+		case "Swap":
+			old := cur()
+			p.obj.f[slot] = args[1]
+			return old, true
+		case "CompareAndSwap":
+			eq, ok := e.binop(token.EQL, cur(), args[1]).(abool)
+			if !ok {
+				return nil, false
+			}
+			if eq {
+				p.obj.f[slot] = args[2]
+			}
+			return eq, true
 		}
 	}
 	return nil, false
